@@ -251,3 +251,55 @@ Lemma key_spec_decl_order : forall ds1 ds2 t name v,
 Proof.
   intros. unfold key_spec. apply filter_ext. intro n. unfold key_pred. apply existsb_same_members. exact H.
 Qed.
+
+(* ---------- declarations of imported stylesheets ---------- *)
+Section SheetInd.
+  Variable P : sheet -> Prop.
+  Hypothesis step : forall own imps, Forall P imps -> P (Sheet own imps).
+  Fixpoint sheet_ind2 (s : sheet) : P s :=
+    match s with
+    | Sheet own imps =>
+        step own imps
+          ((fix go (l : list sheet) : Forall P l :=
+              match l with
+              | [] => Forall_nil P
+              | c :: r => Forall_cons c (sheet_ind2 c) (go r)
+              end) imps)
+    end.
+End SheetInd.
+
+Inductive in_import_tree : sheet -> sheet -> Prop :=
+| it_self : forall s, in_import_tree s s
+| it_imp : forall own imps i s', In i imps -> in_import_tree i s' -> in_import_tree (Sheet own imps) s'.
+
+Definition own_of (s : sheet) : list gdecl := match s with Sheet own _ => own end.
+
+Definition merged_list : list sheet -> list gdecl :=
+  fix go (l : list sheet) : list gdecl := match l with [] => [] | i :: r => merged i ++ go r end.
+
+Lemma merged_unfold : forall own imps, merged (Sheet own imps) = own ++ merged_list imps.
+Proof. reflexivity. Qed.
+
+Lemma merged_list_in : forall imps g, In g (merged_list imps) <-> exists i, In i imps /\ In g (merged i).
+Proof.
+  induction imps as [|i r IH]; intro g; simpl.
+  - split. contradiction. intros [i [[] _]].
+  - rewrite in_app_iff, IH. split.
+    + intros [H|[i' [H1 H2]]]. exists i; auto. exists i'; auto.
+    + intros [i' [[H1|H1] H2]]. subst; auto. right. exists i'; auto.
+Qed.
+
+Lemma merged_in : forall s g,
+  In g (merged s) <-> exists s', in_import_tree s s' /\ In g (own_of s').
+Proof.
+  intros s g. split.
+  - revert g. induction s using sheet_ind2. intros g Hg. rewrite merged_unfold, in_app_iff in Hg.
+    destruct Hg as [Hg|Hg].
+    + exists (Sheet own imps). split. constructor. exact Hg.
+    + apply merged_list_in in Hg. destruct Hg as [i [Hi Hg]].
+      rewrite Forall_forall in H. destruct (H i Hi g Hg) as [s' [H1 H2]].
+      exists s'. split; auto. econstructor; eauto.
+  - intros [s' [Ht Hg]]. induction Ht as [s|own imps i s' Hi Ht IH].
+    + destruct s as [own imps]. rewrite merged_unfold. apply in_or_app. left. exact Hg.
+    + rewrite merged_unfold. apply in_or_app. right. apply merged_list_in. exists i. auto.
+Qed.
